@@ -256,7 +256,33 @@ def f31(idx):
 
 
 def specs(tier, seed, nworkers):
-    return [{"shard": i, "of": nworkers, "tier": tier, "seed": seed} for i in range(nworkers)]
+    return [{"shard": i, "of": nworkers, "tier": tier, "seed": seed} for i in range(nworkers)] + [{"mode": "overlap", "tier": tier, "seed": seed}]
+
+
+def overlap_worker(server_bin, spec):
+    """two users own equally named problems; one asks while the other's long computation runs: running_tasks (and the
+    whole answer) of the asking user's problem must be what it is without the other user's task"""
+    import c17
+    t0 = time.time()
+    svc = Service(server_bin)
+    w = c17.World(svc)
+    stats = {"states": 0, "transitions": 0}
+    res = {"ok": True}
+    try:
+        svc.stub.mode = "defer_bg"
+        c17.EMPTY = w.snapshot()
+        c17.overlap(w, stats)
+        svc.check()
+    except MachineryError as e:
+        res = {"ok": False, "machinery": str(e)}
+    finally:
+        svc.close()
+    viol = []
+    for v in w.viol:
+        viol.append({"kind": "other-users-task:" + v["kind"], "msg": v["msg"], "case": {"type": "overlap"}})
+    res.update({"violations": viol, "requests": w.requests, "states": stats["states"], "transitions": stats["transitions"],
+                "nontrivial": stats.get("windows_observed", 0), "outcomes": [], "wall": time.time() - t0})
+    return res
 
 
 def meta(tier, seed, results):
@@ -277,6 +303,8 @@ def meta(tier, seed, results):
 def worker(server_bin, spec):
     """spec: {"shard": i, "of": n, "tier": ..., "seed": ...}; returns a result dict"""
     t0 = time.time()
+    if spec.get("mode") == "overlap" or ("replay" in spec and spec["replay"].get("type") == "overlap"):
+        return overlap_worker(server_bin, spec)
     if "replay" in spec:
         try:
             v = replay(server_bin, spec["replay"])
